@@ -142,6 +142,14 @@ class VFun(V):
         return "VFun(%s)" % self.name
 
 
+class VNS(V):
+    """a module or class of the repository, for reading constants: (module name, path inside it)"""
+    kind = "ns"
+
+    def __init__(self, module, path=()):
+        self.module, self.path = module, tuple(path)
+
+
 class VQ(V):
     """Quantified boolean: forall var in [lo, hi): body(var). Only valid as a whole contract clause."""
     kind = "q"
